@@ -72,7 +72,11 @@ func (p *Parser) SetPlaceholder(placeholder Atom, args ...interface{}) error {
 func (p *Parser) termOf(o reflect.Value) (Term, error) {
 	switch o.Kind() {
 	case reflect.Float32, reflect.Float64:
-		return Float(o.Float()), nil
+		f := o.Float()
+		if math.IsNaN(f) || math.IsInf(f, 0) {
+			return nil, fmt.Errorf("can't convert to term: %v", o)
+		}
+		return Float(f), nil
 	case reflect.Int, reflect.Int8, reflect.Int16, reflect.Int32, reflect.Int64:
 		return Integer(o.Int()), nil
 	case reflect.String:
